@@ -31,94 +31,56 @@ def run(P, chk, tier):
 
 
 def login(P, chk):
-    r1 = chk.rule("C19.R1", "what is hashed", "temp[0..31] = pass[0..31]; each 32-bit word w becomes htonl(ntohl(w) ^ seed); "
-                  "md5_append(temp, 32); md5_finish into the output; guarded by buflen >= 16", "E4 + E2", floor=5)
+    r1 = chk.rule("C19.R1", "what is hashed", "the 32 bytes handed to MD5 are, bit for bit, pass[j] XOR byte (3 - j mod 4) of the "
+                  "challenge (eight big-endian repetitions), for every password and challenge; fresh MD5 state, one append of "
+                  "exactly these 32 bytes, digest written to the caller's buffer", "E4 abstract execution over XOR-affine bits", floor=5)
     f = P.func("login_calculate", "login.c")
+    if len(f.params) != 4:
+        raise AnalysisBroken("C19.R1: login_calculate no longer takes (buf, buflen, pass, seed)")
     bufn, lenn, passn, seedn = [p["ref"]["name"] for p in f.params]
-    tmp = [l for l in f.locals if l["t"].get("k") == "array"]
-    if len(tmp) != 1:
-        raise AnalysisBroken("C19.R1: work buffer of login_calculate not found")
-    tname, tsize = tmp[0]["ref"]["name"], tmp[0]["t"].get("size")
-    cps = [c for b, c in f.calls("memcpy")]
-    okc = len(cps) == 1 and pp(sk(cps[0]["a"][0])) == tname and pp(sk(cps[0]["a"][1])) == passn and cval(sk(cps[0]["a"][2])) == tsize == 32
-    others = [c.get("fn") for b, c in f.calls() if c.get("fn") in ("strncpy", "strcpy", "strlen", "memset", "snprintf")]
-    direct = [x for b, x in f.all_nodes() if x.get("k") == "Bin" and x["op"] in ir.ASSIGN_OPS and sk(x["a"][0]).get("k") == "Sub"
-              and pp(sk(sk(x["a"][0])["a"][0])) == tname]
-    if direct:
-        others = others + ["%s" % pp(d)[:30] for d in direct]
-    if not cps and not others:
-        raise AnalysisBroken("C19.R1: how the work buffer is filled is not recognised (no memcpy, no string call, no direct store)")
-    chk.site(r1, f, ir.loc(cps[0]) if cps else f.line, "work buffer filled from the password", okc and not others,
-             "memcpy(%s, %s, 32), buffer size %s" % (tname, passn, tsize) if okc and not others else
-             "the 32-byte work buffer is not a plain copy of pass[0..31] (calls: %s)" % (others or [pp(c)[:40] for c in cps]))
-    # writes into the work buffer after the copy: only through the word loop
-    # word loop: symbolic walk of one iteration
-    loops = [b for b in f.blocks.values() if b.term and b.term.get("kind") == "ForStmt" and b.term.get("cond") is not None]
-    if len(loops) != 1:
-        raise AnalysisBroken("C19.R1: word loop not found")
-    cond = sk(loops[0].term["cond"])
-    niter = cval(sk(cond["a"][1])) if cond.get("k") == "Bin" and cond["op"] == "<" else None
-    chk.site(r1, f, ir.loc(cond), "word loop", niter == 8, "%s iterations of 4 bytes over a %s-byte buffer" % (niter, tsize))
-    body = loops[0].succs[0]
-    stores = []
-
-    def leaf(env):
-        def lf(e):
-            k = e.get("k")
-            if k == "Ref" and e["ref"]["name"] in env:
-                return env[e["ref"]["name"]]
-            if k == "Ref" and e["ref"]["name"] == seedn:
-                return bits.source("seed", 32, True)
-            if k == "Un" and e["op"] == "*":
-                return bits.source("word", 32, True)
-            if k == "Call" and e.get("fn") in ("ntohl", "htonl", "__bswap_32"):
-                v = bits.ev(e["a"][0], lf)
-                by = [v[8 * i:8 * i + 8] for i in range(4)]
-                sw = by[3] + by[2] + by[1] + by[0]
-                return sw + [0] * (bits.W - 32)
-            return None
-        return lf
-    env = {}
-    b = f.blocks[body]
-    ptr_inc = 0
-    for e in b.elems:
-        x = sk(e)
-        if x.get("k") == "Bin" and x["op"] in ("=", "^="):
-            lhs = sk(x["a"][0])
-            if x["op"] == "=":
-                v = bits.conv(bits.ev(x["a"][1], leaf(env)), lhs.get("t"))
-            else:
-                v = bits.conv(bits._xor(bits.ev(x["a"][0], leaf(env)), bits.ev(x["a"][1], leaf(env))), lhs.get("t"))
-            if lhs.get("k") == "Ref":
-                env[lhs["ref"]["name"]] = v
-            elif lhs.get("k") == "Un" and lhs["op"] == "*":
-                stores.append(v)
-                if "++" in pp(lhs):
-                    ptr_inc += 1
-    okw = len(stores) == 1
-    detail = "no store through the word pointer in the loop body"
-    if okw:
-        v = stores[0]
-        bad = None
-        for byte in range(4):
-            for bit in range(8):
-                got = v[8 * byte + bit]
-                # memory byte `byte` of the word (little-endian host): password bit XOR challenge byte (3 - byte)
-                want_pair = {("s", "word", 8 * byte + bit), ("s", "seed", 8 * (3 - byte) + bit)}
-                if got != bits.TOP or True:
-                    pass
-        # the XOR of two sources is TOP in the bit domain; redo the evaluation with a XOR-aware pair domain
-        okw, detail = _xor_pairs(f, b, seedn)
-    chk.site(r1, f, ir.loc(b.elems[0]) if b.elems else f.line, "each word = htonl(ntohl(word) ^ seed)", okw, detail)
-    chk.site(r1, f, f.line, "pointer advances one word per iteration", ptr_inc == 1, "%d increments" % ptr_inc)
-    ap = [c for bb, c in f.calls("md5_append")]
-    fi = [c for bb, c in f.calls("md5_finish")]
-    oka = len(ap) == 1 and pp(sk(ap[0]["a"][1])) == tname and cval(sk(ap[0]["a"][2])) == 32
-    okf = len(fi) == 1 and pp(sk(fi[0]["a"][1])) == bufn
-    chk.site(r1, f, ir.loc(ap[0]) if ap else f.line, "md5_append(ctx, %s, 32)" % tname, oka, "")
-    chk.site(r1, f, ir.loc(fi[0]) if fi else f.line, "md5_finish into the caller's buffer", okf, "")
-    ini = [c for bb, c in f.calls("md5_init")]
-    chk.site(r1, f, f.line, "fresh MD5 state", len(ini) == 1 and all(ir.loc(ini[0]) < ir.loc(c) for c in ap), "")
+    from iosa import bitexec
+    m = bitexec.Machine(f, {passn: "pass"}, {seedn: ("seed", 32, True)}, libc={"md5_init", "md5_append", "md5_finish"})
+    try:
+        m.run()
+    except bitexec.NotInterpretable as ex:
+        chk.undecided(r1, f, f.line, "login_calculate", "the computation cannot be followed bit by bit (%s)" % ex)
+        return
+    ini = [c for c in m.calls if c[0] == "md5_init"]
+    ap = [c for c in m.calls if c[0] == "md5_append"]
+    fi = [c for c in m.calls if c[0] == "md5_finish"]
+    order = [c[0] for c in m.calls]
+    chk.site(r1, f, f.line, "MD5 call sequence", order == ["md5_init", "md5_append", "md5_finish"],
+             "calls on the executed path: %s" % order)
+    if len(ap) == 1:
+        fn, args, e, mem = ap[0]
+        ptr, n = args[1], (bits.known_value(args[2]) if args[2] is not None and not isinstance(args[2], bitexec.Ptr) else None)
+        okn = isinstance(ptr, bitexec.Ptr) and n == 32
+        chk.site(r1, f, ir.loc(e), "md5_append hashes 32 bytes", okn, "length %s" % n)
+        if okn:
+            for j in range(32):
+                got = mem.get(ptr.base, {}).get(ptr.off + j, [bits.TOP] * 8) if ptr.base in mem else [bits.TOP] * 8
+                bad = None
+                for t in range(8):
+                    want = bits._mk(frozenset([("pass[%d]" % j, t), ("seed", 8 * (3 - j % 4) + t)]), 0)
+                    if got[t] != want:
+                        bad = (t, got[t], want)
+                        break
+                chk.site(r1, f, ir.loc(e), "hashed byte %d" % j, bad is None,
+                         "= pass[%d] ^ challenge byte %d, all 8 bits" % (j, 3 - j % 4) if bad is None else
+                         "bit %d is %s, the documented computation gives %s" % (
+                             bad[0], "not a fixed XOR of input bits (depends on other bits, e.g. a sign extension or a data-dependent copy)"
+                             if bad[1] == bits.TOP else bits.showbit(bad[1]), bits.showbit(bad[2])))
+    if len(fi) == 1:
+        fn, args, e, mem = fi[0]
+        okf = isinstance(args[1], bitexec.Ptr) and args[1].base == bufn and args[1].off == 0
+        chk.site(r1, f, ir.loc(e), "md5_finish into the caller's buffer", okf, "")
+    # the capacity guard in front: nothing is written for a buffer shorter than the digest
+    an_ok = False
+    for b_ in f.blocks.values():
+        c_ = sk(b_.term["cond"]) if b_.term and b_.term.get("cond") is not None else None
+        if c_ is not None and c_.get("k") == "Bin" and c_["op"] in ("<", "<=", ">", ">=") and lenn in pp(c_) and "16" in pp(c_):
+            an_ok = True
+    chk.site(r1, f, f.line, "guarded by the output capacity", an_ok, "a test of %s against 16 precedes the computation" % lenn)
 
 
 def _xor_pairs(f, b, seedn):
